@@ -103,10 +103,10 @@ pub fn spec(property: &str, tier: &str) -> Option<CheckSpec> {
 		"C15" => Some(s(
 			"chainsim",
 			"exploration",
-			if quick { 12 } else { 96 },
+			if quick { 15 } else { 96 },
 			"chain-level clause: after every delivery (forks, reorgs, restarts) the committed bitmap root must equal both an accumulator initialised from scratch over the unspent set the node reports and an independent re-implementation (chunk bytes + MMR bagging); a block whose output root commits to a bitmap with one bit flipped (re-mined) must be refused. The multi-chunk clause is checked by the txhsim engine (see coverage.txhsim)",
-			vec!["real blocks stay within one 1024-bit chunk; several chunks are covered by txhsim with synthetic outputs"],
-			vec!["reorg"],
+			vec!["real blocks stay within one 1024-bit chunk; several chunks are covered by txhsim (every third case) with synthetic outputs: fake commitments and zero proofs, which nothing on the TxHashSet path verifies"],
+			vec!["reorg", "multi_chunk_state", "rewind_shrinks_across_chunk_boundary"],
 		)),
 		"C09" => {
 			let mut sp = s(
@@ -635,8 +635,17 @@ pub fn replay_chainsim(rp: &Value) -> Result<Option<Violation>, String> {
 
 pub fn run_case(property: &str, tier: &str, seed: u64, case: u64) -> CaseResult {
 	match property {
-		p if CHAINSIM_PROPS.contains(&p) => chainsim_case(property, tier, seed, case),
 		"C09" => crate::crashsim::case(tier, seed, case),
+		"C15" => {
+			if case % 3 == 2 {
+				let mut r = crate::txhsim::case(tier, seed, case);
+				let runs = r.runs;
+				r.extra.insert("txhsim_runs".into(), json!(runs));
+				r
+			} else {
+				chainsim_case(property, tier, seed, case)
+			}
+		}
 		"C08" => {
 			if case % 4 == 3 {
 				let mut r = chainsim_case(property, tier, seed, case);
@@ -648,6 +657,7 @@ pub fn run_case(property: &str, tier: &str, seed: u64, case: u64) -> CaseResult 
 				crate::storesim::case(tier, seed, case)
 			}
 		}
+		p if CHAINSIM_PROPS.contains(&p) => chainsim_case(property, tier, seed, case),
 		_ => {
 			let mut r = CaseResult::new(case, seed);
 			r.harness_error = Some(format!("no engine for property {}", property));
